@@ -450,6 +450,14 @@ func cmdCheck(args []string) int {
 			}
 			byClause[n] = &ClauseResult{Name: n, Verdict: "error", FailInfo: msg, Subs: 1}
 			order = append(order, n)
+			// an incompletely executed function proves nothing: the clauses generated before the engine gave up
+			// cover only the paths explored so far
+			for cn, cr := range byClause {
+				if strings.HasPrefix(cn, fr.Name+":") && cr.Verdict == "discharged" {
+					cr.Verdict = "failed"
+					cr.FailInfo = "function not completely executed: " + msg
+				}
+			}
 		}
 	}
 	sort.Strings(order)
